@@ -439,7 +439,6 @@ fn potential_children(
 
 
 fn compare_renumbered_from(table: &CosetTable, start: usize) -> isize {
-    let n = table.len();
     let mut n2o = HashMap::from([(0, start)]);
     let mut o2n = HashMap::from([(start, 0)]);
 
@@ -447,7 +446,11 @@ fn compare_renumbered_from(table: &CosetTable, start: usize) -> isize {
         assert!(row < n2o.len(), "coset table is not transitive");
 
         for g in table.all_gens() {
-            let oval = table.get(row, g).unwrap_or(n);
+            // an entry that is still undefined on either side decides nothing
+            let oval = match table.get(row, g) {
+                Some(o) => o,
+                None => return 0,
+            };
 
             let nval = if let Some(t) = table.get(n2o[&row], g) {
                 if !o2n.contains_key(&t) {
@@ -457,7 +460,7 @@ fn compare_renumbered_from(table: &CosetTable, start: usize) -> isize {
                 }
                 *o2n.get(&t).unwrap()
             } else {
-                n
+                return 0;
             };
 
             let result = nval as isize - oval as isize;
